@@ -3,7 +3,8 @@
    gen_locks_before_changes    tx_update / tx_delete call try_lock on ALL matching rows before the change loop
    gen_undo_before_change      tx_update / tx_delete record the undo entry before touching index / slab
    gen_rollback_reverse        rollback applies the undo log in reverse and always releases + removes
-   gen_phase_checked           every tx_* / commit / rollback starts with the is_active check"""
+   gen_phase_checked           every tx_* / commit / rollback starts with the is_active check
+   gen_undo_btree_guarded      apply_undo_entry adds B-tree entries only for columns that have a B-tree index"""
 import os
 import re
 import sys
@@ -15,7 +16,7 @@ from rs2v import HEADER, find_fn, read, strip_comments  # noqa: E402
 def generate(repo):
     items = {}
     vals = {"gen_insert_locks_row": False, "gen_locks_before_changes": True, "gen_undo_before_change": True,
-            "gen_rollback_reverse": True, "gen_phase_checked": True}
+            "gen_rollback_reverse": True, "gen_phase_checked": True, "gen_undo_btree_guarded": True}
     try:
         src = strip_comments(read(repo, "relational_engine/src/lib.rs"))
     except Exception as ex:  # noqa: BLE001
@@ -73,6 +74,19 @@ def generate(repo):
                 ok = ok and bool(re.match(r"if\s*!\s*self\s*\.\s*tx_manager\s*\.\s*is_active\s*\(\s*tx_id\s*\)", b))
             return ok
 
+        def undo_guarded():
+            b = find_fn(src, "apply_undo_entry")[1]
+            adds = [m.start() for m in re.finditer(r"self\s*\.\s*btree_index_add\s*\(", b)]
+            if not adds:
+                raise KeyError("no btree_index_add in apply_undo_entry")
+            ok = True
+            for a in adds:
+                # the nearest preceding statement boundary of the loop body must contain the has_btree_index guard
+                head = b[max(0, a - 400):a]
+                ok = ok and bool(re.search(r"if\s*!\s*self\s*\.\s*has_btree_index\s*\([^)]*\)\s*\{\s*continue\s*;\s*\}", head))
+            return ok
+
+        item("gen_undo_btree_guarded", undo_guarded)
         item("gen_insert_locks_row", insert_locks)
         item("gen_locks_before_changes", locks_first)
         item("gen_undo_before_change", undo_first)
